@@ -6,4 +6,7 @@ D1 == <<1>>
 D12 == <<1, 2>>
 D123 == <<1, 2, 3>>
 D1234 == <<1, 2, 3, 4>>
+\* emits the call history of every behaviour that reaches the message bound (used to replay an exhaustive spanning set of
+\* behaviours into the real code; always TRUE as a constraint)
+EmitBeh == IF Idle /\ nmsgs >= MaxMsgs THEN PrintT(<<"BEH", hist>>) ELSE TRUE
 ====
